@@ -76,6 +76,7 @@ var rR16g = RuleRef{Name: "R16g", Doc: "Raft core guards (pinned mechanisms, not
 		{Pkg: raftPkg, Fn: "raft.loadState", At: "store:committed", AllEdges: true, NeedAll: []string{"F|cmp:Commit<committed", "F|cmp:lastIndex()<Commit"}, What: "a loaded commit index lies within [committed, lastIndex]"},
 		{Pkg: raftPkg, Fn: "raft.Step", At: "store:Vote", AllEdges: true, NeedAll: []string{"T|call:isUpToDate"}, NeedAny: []string{"T|cmp:From==Vote", "T|cmp:0==Vote", "T|cmp:Term<Term"}, What: "a vote is recorded only for an up-to-date candidate and only if no conflicting vote was cast"},
 		{Pkg: raftPkg, Fn: "stepCandidate", At: "call:poll", AllEdges: true, NeedAll: []string{"T|cmp:?==Type"}, What: "a (pre-)candidate tallies only the response type of its current candidacy (compared with a state-dependent value, not with message-type constants)"},
+		{Pkg: raftPkg, Fn: "raft.restore", At: "call:commitTo", AllEdges: true, NeedAll: []string{"T|call:matchTerm"}, What: "a snapshot is answered by fast-forwarding the commit index (instead of being restored) only when the log holds the snapshot's entry: same index AND same term (a log that is merely longer, or ends in a newer term, may hold a divergent uncommitted tail there)"},
 		{Pkg: raftPkg, Fn: "raft.hup", At: "call:campaign", AllEdges: true, NeedAll: []string{"C|slice", "C|numOfPendingConf", "F|cmp:2==state"}, What: "campaigning is refused while configuration changes are committed but unapplied"},
 	}
 	c.checkOrder("R16g", obs)
